@@ -633,7 +633,7 @@ func (w *World) opMulti() {
 	if w.t.Chance("ops", "multi.large", 1, 10) {
 		// a long list (an implementation may batch or take another path
 		// above some size), the receiver possibly anywhere in it
-		n = []int{33, 40, 64, 65, 70}[w.t.Choose("ops", "multi.largen", 5)]
+		n = []int{33, 40, 64, 65, 70, 257, 300}[w.t.Choose("ops", "multi.largen", 7)]
 		recvAt = w.t.Choose("ops", "multi.recvat", n)
 		w.r.Probe("multi_large_list")
 	}
@@ -686,6 +686,26 @@ func (w *World) opH2C() {
 	switch w.t.Choose("ops", "h2c.kind", 3) {
 	case 0:
 		n := 32 + w.t.Choose("ops", "h2c.len", 33)
+		if w.t.Chance("ops", "h2c.badlen", 1, 8) {
+			// a length outside 32..64 is refused with a panic; whatever the
+			// receiver held must still be there afterwards
+			n = []int{0, 1, 16, 31, 65, 66, 100}[w.t.Choose("ops", "h2c.badn", 7)]
+			src := w.t.Bytes("ops", "h2c.src", n)
+			before, rawBefore := observable(w.points[r]), rawOf(w.points[r])
+			po := protect(func() { w.points[r].SetUniformBytes(src) })
+			w.r.Hist("%d p%d.SetUniformBytes(%d bytes) -> panic=%v", w.step, r, n, po.panicked)
+			w.r.Fault("failing_call_bad_length")
+			if !po.panicked {
+				w.r.Probe("uniform_bytes_bad_length_accepted")
+				w.adopt(r, "SetUniformBytes")
+				return
+			}
+			if after := observable(w.points[r]); after != before || rawOf(w.points[r]).valid != rawBefore.valid {
+				w.r.Violate("C18", "receiver-changed-on-failure", "SetUniformBytes:bad-length", w.step, "p%d.SetUniformBytes(%d bytes) panicked (length outside 32..64), but the receiver changed from %s (valid=%v) to %s (valid=%v)", r, n, before, rawBefore.valid, after, rawOf(w.points[r]).valid)
+				w.adopt(r, "SetUniformBytes")
+			}
+			return
+		}
 		src := w.t.Bytes("ops", "h2c.src", n)
 		// field elements on which a map to the curve has exceptional cases:
 		// 0, 1, -1, and the two u with Z*u^2 = -1 for Z = -11 (u^2 = 1/11,
